@@ -56,6 +56,18 @@ CLAIMED = {
   "deterministic simulation with frame averaging k=2..8 on rings of 2-40 frames (accumulators land on used ring memory); every f32 frame at storage and monitor compared with the exact mean of its window of camera frames",
   "Seeded search over window sizes, integer sample types, shapes, frame counts, ring capacities and schedules of source, filter and sink; oracle: floor(N/k) complete windows (at most one extra frame), ids of the windows' first frames, every pixel within 2 ulp of the true mean of the k specific camera frames.",
   "As C04."),
+ "C14": ("exploration", "DESIGN.md §4 C14",
+  "seeded set/start/append/stop histories on the real raw writer through the real HAL and the real write-all loop of platform.c, over a simulated file layer that returns short and zero-length writes; file bytes compared with the concatenation of the appended packets",
+  "Seeded search over histories (1-2 devices, 1-4 acquisitions each to a fresh path, every URI spelling, packet groupings, frame sizes) and over OS write behaviours (random short writes of every length, spaced zero-length writes); after each stop the file at the prefix-stripped path must equal the bytes appended in that acquisition.",
+  "Every acquisition uses a fresh path (files are created without truncation). Failing writes belong to C16."),
+ "C15": ("exploration", "DESIGN.md §4 C15",
+  "seeded histories on the real tiff and tiff-json writers over the simulated file layer; produced bytes parsed by an independent BigTIFF reader and JSON parser written from the specifications",
+  "Seeded search over shapes, all sample types, frame counts, packet groupings, metadata, pixel scales, URI spellings, both device kinds and repeated start/stop cycles; oracle = exactly the stated clauses (header, chain length and zero link, offsets inside the file, no overlapping structures, width/height/bits/sample format per directory, strip bytes, description JSON with ids and timestamps, metadata on frame 0 or in metadata.json).",
+  "Tag order, optional tags and resolution values are not judged. tiff-json is always given metadata (it rejects an empty one at set, which is input validation)."),
+ "C16": ("fault_enumeration", "DESIGN.md §4 C16",
+  "fault enumeration on the simulated file layer: a fault-free twin run of each generated life-cycle history counts the create/write/lock/close calls, then the history is re-executed once per call ordinal with the fault at that ordinal (EINTR, EAGAIN, three zero-length writes, persistent EIO/ENOSPC, one-off EIO, open EACCES/ENOENT/EMFILE, flock failure, close EIO); the file layer tracks descriptor ownership",
+  "For every generated history (storage kind x shape: open-close, open-set-close, start/stop cycles, operations after a failure, close while running) every ordinal of the chosen fault family's call is swept. Oracles: no crash, no unbounded recursion (stack overflow is classified), no hang; after a write failure the device is not Running when the failing append returns; a failed create is reported by start; only descriptors the device opened are written or closed, each closed once, none left open after close, 0-2 never closed.",
+  "One fault family per history (all families covered across histories); single-device histories (stale-number collisions between two streams are covered by the ownership tracking, not by a second live stream)."),
 }
 
 NOT_YET = {
